@@ -1,50 +1,14 @@
 (* C01/C02 — KMS envelope AEAD over an AES-CTR-HMAC data key (model/EnvelopeDekEtm.v), closed over the
-   AES-CTR-HMAC model (EtM.v): round trip, exact acceptance, no panic, wire format.  Only the
-   key-encryption AEAD stays abstract (laws kek_rt / kek_only explicit), AES and HMAC are quantified
-   functions with their output lengths as the only hypotheses. *)
+   AES-CTR-HMAC model (EtM.v) and the protobuf wire model (ProtoWire.v): round trip, exact acceptance, no
+   panic, wire format.  Only the key-encryption AEAD stays abstract (laws kek_rt / kek_only explicit), AES
+   and HMAC are quantified functions with their output lengths as the only hypotheses.  The data key is
+   whatever byte string protobuf unmarshals to a valid key (any encoding of it); IV size, tag size, hash
+   and key sizes are those of the parsed key, not of any template (fourth audit A1). *)
 From Coq Require Import List NArith Bool Arith Lia ZifyN ZifyNat ZifyBool.
-From Tink Require Import Bytes AeadFrame AeadFrameProofs Ctr CtrProofs EtM EtMProofs Envelope EnvelopeProofs EnvelopeDekEtm.
+From Tink Require Import Bytes AeadFrame AeadFrameProofs Ctr CtrProofs EtM EtMProofs Envelope EnvelopeProofs
+  ProtoWire ProtoWireProofs EnvelopeDekEtm.
 Import ListNotations.
 Open Scope N_scope.
-
-Lemma take_pfield_pfield tag x r : lenN x < 128 -> take_pfield tag (pfield tag x ++ r) = Some (x, r).
-Proof.
-  intros Hx. unfold pfield, take_pfield. cbn [app]. rewrite N.eqb_refl.
-  destruct (N.ltb_spec (lenN x) 128) as [_|]; [|lia].
-  destruct (N.leb_spec (lenN x) (lenN (x ++ r))) as [_|Hc].
-  2:{ unfold lenN in Hc. rewrite app_length in Hc. lia. }
-  cbn [andb]. unfold lenN. rewrite Nnat.Nat2N.id, firstn_app_exact, skipn_app_exact. reflexivity.
-Qed.
-
-Lemma take_pfield_last tag x : lenN x < 128 -> take_pfield tag (pfield tag x) = Some (x, []).
-Proof. intros Hx. rewrite <- (app_nil_r (pfield tag x)). apply take_pfield_pfield. exact Hx. Qed.
-
-Lemma take_pfield_inv tag b x r : take_pfield tag b = Some (x, r) -> b = pfield tag x ++ r /\ lenN x < 128.
-Proof.
-  unfold take_pfield. destruct b as [|t [|n rest]]; try discriminate.
-  destruct (N.eqb_spec t tag) as [->|]; [|discriminate].
-  destruct (N.ltb_spec n 128) as [Hn|]; [|discriminate].
-  destruct (N.leb_spec n (lenN rest)) as [Hl|]; [|discriminate]. cbn [andb].
-  intros H; inversion H; subst x r; clear H. unfold lenN in *.
-  assert (Hf : length (firstn (N.to_nat n) rest) = N.to_nat n) by (rewrite firstn_length; lia).
-  split; [|lia]. unfold pfield, lenN. rewrite Hf, Nnat.N2Nat.id. cbn [app]. rewrite firstn_skipn. reflexivity.
-Qed.
-
-Lemma parse_keymsg_ok par kv : lenN par < 128 -> lenN kv < 128 ->
-  parse_keymsg (pfield 18 par ++ pfield 26 kv) = Some (par, kv).
-Proof.
-  intros Hp Hk. unfold parse_keymsg. rewrite take_pfield_pfield by exact Hp.
-  rewrite take_pfield_last by exact Hk. reflexivity.
-Qed.
-
-Lemma parse_keymsg_inv b par kv : parse_keymsg b = Some (par, kv) -> b = pfield 18 par ++ pfield 26 kv.
-Proof.
-  unfold parse_keymsg. destruct (take_pfield 18 b) as [[p r]|] eqn:E1; [|discriminate].
-  destruct (take_pfield 26 r) as [[k [|? ?]]|] eqn:E2; try discriminate.
-  intros H; inversion H; subst p k; clear H.
-  apply take_pfield_inv in E1. apply take_pfield_inv in E2. destruct E1 as [-> _], E2 as [-> _].
-  rewrite app_nil_r. reflexivity.
-Qed.
 
 Lemma hash_len_bounds h hl : hash_len h = Some hl -> 1 <= h <= 5 /\ (hl <= 64)%nat.
 Proof.
@@ -56,62 +20,51 @@ Lemma etm_valid_facts hl k : etm_valid hl k = true ->
   (10 <= ek_tag k <= hl)%nat /\ (16 <= length (ek_hmac k))%nat.
 Proof. unfold etm_valid. intros H. lia. Qed.
 
-(* newDEK: a freshly generated key serialises to a data key that parses back *)
-Lemma etm_dek_parse_proto h hl k : hash_len h = Some hl -> etm_valid hl k = true -> (length (ek_hmac k) <= 100)%nat ->
-  etm_dek_parse (ek_iv k) (etm_dek_proto h k) = Some (h, k).
+Lemma etm_schema_wf : wf_schema etm_schema = true.
+Proof. vm_compute. reflexivity. Qed.
+
+(* the key message of a valid key is what the parser extracts from itself *)
+Lemma etm_of_msg_msg h hl k : hash_len h = Some hl -> etm_valid hl k = true -> etm_of_msg (etm_msg h k) = Some (h, k).
 Proof.
-  intros Hh Hv Hm. destruct (hash_len_bounds _ _ Hh) as [Hhb Hhl].
-  destruct (etm_valid_facts _ _ Hv) as [Ha [Hi [Ht Hk]]].
-  unfold etm_dek_parse, etm_dek_proto.
-  set (cp := ctr_params_bytes (N.of_nat (ek_iv k))). set (hp := hmac_params_bytes h (N.of_nat (ek_tag k))).
-  assert (Lcp : lenN cp = 2) by reflexivity. assert (Lhp : lenN hp = 4) by reflexivity.
-  assert (La : lenN (ek_aes k) < 128) by (unfold lenN; lia).
-  assert (Lk : lenN (ek_hmac k) < 128) by (unfold lenN; lia).
-  assert (Lc : lenN (pfield 18 cp ++ pfield 26 (ek_aes k)) < 128).
-  { unfold lenN, pfield. rewrite app_length. cbn [length]. unfold lenN in *. lia. }
-  assert (Lh : lenN (pfield 18 hp ++ pfield 26 (ek_hmac k)) < 128).
-  { unfold lenN, pfield. rewrite app_length. cbn [length]. unfold lenN in *. lia. }
-  rewrite take_pfield_pfield by exact Lc. rewrite take_pfield_last by exact Lh.
-  rewrite !parse_keymsg_ok by lia.
-  unfold cp, hp, ctr_params_bytes, hmac_params_bytes, parse_ctr_params, parse_hmac_params.
-  rewrite !N.eqb_refl.
-  destruct (N.ltb_spec (N.of_nat (ek_iv k)) 128); [|lia].
-  destruct (N.ltb_spec h 128); [|lia].
-  destruct (N.ltb_spec (N.of_nat (ek_tag k)) 128); [|lia].
-  cbn [andb]. rewrite Hh, !Nnat.Nat2N.id.
-  destruct k as [ak hk iv tg]. cbn [ek_aes ek_hmac ek_iv ek_tag] in *.
-  rewrite Hv, Nat.eqb_refl. reflexivity.
+  intros Hh Hv. unfold etm_of_msg, etm_msg. cbn [sub_or vint vbytes].
+  cbn [N.eqb andb]. rewrite !Nnat.Nat2N.id, Hh.
+  destruct k as [ak hk iv tg]. cbn [ek_aes ek_hmac ek_iv ek_tag] in *. rewrite Hv. reflexivity.
 Qed.
 
-(* whatever parses is a valid key of the template's IV size, and is the serialisation of that key *)
-Lemma etm_dek_parse_inv ivsz dek h k : etm_dek_parse ivsz dek = Some (h, k) ->
-  exists hl, hash_len h = Some hl /\ etm_valid hl k = true /\ ek_iv k = ivsz /\ dek = etm_dek_proto h k.
+Lemma etm_msg_wf h hl k : hash_len h = Some hl -> etm_valid hl k = true -> wf_msg etm_schema (etm_msg h k) = true.
 Proof.
-  unfold etm_dek_parse.
-  destruct (take_pfield 18 dek) as [[ctr r1]|] eqn:E1; [|discriminate].
-  destruct (take_pfield 26 r1) as [[hm [|? ?]]|] eqn:E2; try discriminate.
-  destruct (parse_keymsg ctr) as [[cp ak]|] eqn:E3; [|discriminate].
-  destruct (parse_keymsg hm) as [[hp hk]|] eqn:E4; [|discriminate].
-  destruct (parse_ctr_params cp) as [iv|] eqn:E5; [|discriminate].
-  destruct (parse_hmac_params hp) as [[h' tg]|] eqn:E6; [|discriminate].
-  destruct (hash_len h') as [hl|] eqn:E7; [|discriminate].
-  destruct (etm_valid hl _) eqn:E8; [|discriminate].
-  destruct (Nat.eqb_spec (ek_iv (mkEtm ak hk (N.to_nat iv) (N.to_nat tg))) ivsz) as [E9|]; [|discriminate].
-  cbn [andb]. intros H; inversion H; subst h' k; clear H.
-  exists hl. repeat split; auto.
-  apply take_pfield_inv in E1. apply take_pfield_inv in E2. destruct E1 as [-> _], E2 as [-> _].
-  apply parse_keymsg_inv in E3. apply parse_keymsg_inv in E4. subst ctr hm. rewrite app_nil_r.
-  unfold etm_dek_proto. cbn [ek_aes ek_hmac ek_iv ek_tag].
-  assert (cp = ctr_params_bytes (N.of_nat (N.to_nat iv))) as ->.
-  { unfold parse_ctr_params in E5. destruct cp as [|a [|iv' [|? ?]]]; try discriminate.
-    destruct (N.eqb_spec a 8) as [->|]; [|discriminate]. destruct (iv' <? 128); [|discriminate].
-    inversion E5. rewrite Nnat.N2Nat.id. reflexivity. }
-  assert (hp = hmac_params_bytes h (N.of_nat (N.to_nat tg))) as ->.
-  { unfold parse_hmac_params in E6. destruct hp as [|a [|h0 [|c [|t0 [|? ?]]]]]; try discriminate.
-    destruct (N.eqb_spec a 8) as [->|]; [|discriminate]. destruct (N.eqb_spec c 16) as [->|]; [|discriminate].
-    destruct (h0 <? 128); [|discriminate]. destruct (t0 <? 128); [|discriminate].
-    inversion E6. rewrite Nnat.N2Nat.id. reflexivity. }
-  reflexivity.
+  intros Hh Hv. destruct (hash_len_bounds _ _ Hh) as [Hhb Hhl].
+  destruct (etm_valid_facts _ _ Hv) as [_ [Hi [Ht _]]].
+  unfold etm_schema, etm_msg, ctr_key_schema, hmac_key_schema, ctr_params_schema, hmac_params_schema.
+  cbn [wf_msg wf_val scalar_ok]. unfold two32, two31, two64.
+  repeat (apply andb_true_iff; split); try reflexivity; try (apply N.ltb_lt; lia).
+  apply orb_true_iff. left. apply N.ltb_lt. lia.
+Qed.
+
+(* newDEK: a freshly generated key serialises to a data key that parses back *)
+Lemma etm_dek_parse_proto h hl k : hash_len h = Some hl -> etm_valid hl k = true ->
+  lenN (etm_dek_proto h k) < two64 ->
+  etm_dek_parse (etm_dek_proto h k) = Some (h, k).
+Proof.
+  intros Hh Hv Hl. unfold etm_dek_parse, etm_dek_proto.
+  rewrite (decode_encode etm_schema (etm_msg h k) etm_schema_wf (etm_msg_wf h hl k Hh Hv) Hl).
+  exact (etm_of_msg_msg h hl k Hh Hv).
+Qed.
+
+(* whatever parses is a valid key *)
+Lemma etm_dek_parse_inv dek h k : etm_dek_parse dek = Some (h, k) ->
+  exists hl, hash_len h = Some hl /\ etm_valid hl k = true.
+Proof.
+  unfold etm_dek_parse. destruct (decode etm_schema dek) as [m|]; [|discriminate].
+  unfold etm_of_msg. destruct m as [|ver [|ctr [|hm [|? ?]]]]; try discriminate.
+  destruct (sub_or _ ctr) as [|cver [|cpar [|ckey [|? ?]]]]; try discriminate.
+  destruct (sub_or _ hm) as [|hver [|hpar [|hkey [|? ?]]]]; try discriminate.
+  destruct (sub_or _ cpar) as [|iv [|? ?]]; try discriminate.
+  destruct (sub_or _ hpar) as [|hash [|tag [|? ?]]]; try discriminate.
+  destruct (_ && _ && _)%bool; [|discriminate].
+  destruct (hash_len (vint hash)) as [hl|] eqn:Eh; [|discriminate].
+  destruct (etm_valid hl _) eqn:Ev; [|discriminate].
+  intros H; inversion H; subst h k. exists hl. split; [exact Eh|exact Ev].
 Qed.
 
 Section EtmDek.
@@ -123,42 +76,45 @@ Section EtmDek.
   Notation denc := (etm_dek_enc aes hmacs).
   Notation ddec := (etm_dek_dec aes hmacs).
 
-  Theorem etm_dek_rt ivsz : dek_rt (denc ivsz) (ddec ivsz) ivsz.
+  Theorem etm_dek_rt dek h k iv p ad c : etm_dek_parse dek = Some (h, k) -> length iv = ek_iv k ->
+    denc dek iv p ad = Ok c -> ddec dek c ad = Ok p.
   Proof.
-    intros dek iv p ad c Hiv. unfold etm_dek_enc, etm_dek_dec.
-    destruct (etm_dek_parse ivsz dek) as [[h k]|] eqn:Ep; [|discriminate].
-    destruct (etm_dek_parse_inv _ _ _ _ Ep) as [hl [Hh [Hv [Hi _]]]].
+    intros Ep Hiv. unfold etm_dek_enc, etm_dek_dec. rewrite Ep.
+    destruct (etm_dek_parse_inv _ _ _ Ep) as [hl [Hh Hv]].
     destruct (etm_valid_facts _ _ Hv) as [_ [_ [Ht _]]].
     intros He. rewrite (etm_dec_is_canon aes (hmacs h) hl aes_len (hmacs_len h hl Hh)) by lia.
-    apply (etm_round_trip aes (hmacs h) hl aes_len (hmacs_len h hl Hh) [] k iv p ad c); [lia|lia|exact He].
+    apply (etm_round_trip aes (hmacs h) hl aes_len (hmacs_len h hl Hh) [] k iv p ad c); [lia|exact Hiv|exact He].
   Qed.
 
-  Theorem etm_dek_only ivsz dek c ad p : lenN c <= MaxInt ->
-    ddec ivsz dek c ad = Ok p -> exists iv, length iv = ivsz /\ denc ivsz dek iv p ad = Ok c.
+  Theorem etm_dek_only dek h k c ad p : etm_dek_parse dek = Some (h, k) -> lenN c <= MaxInt ->
+    ddec dek c ad = Ok p -> exists iv, length iv = ek_iv k /\ denc dek iv p ad = Ok c.
   Proof.
-    intros Hc. unfold etm_dek_enc, etm_dek_dec.
-    destruct (etm_dek_parse ivsz dek) as [[h k]|] eqn:Ep; [|discriminate].
-    destruct (etm_dek_parse_inv _ _ _ _ Ep) as [hl [Hh [Hv [Hi _]]]].
+    intros Ep Hc. unfold etm_dek_enc, etm_dek_dec. rewrite Ep.
+    destruct (etm_dek_parse_inv _ _ _ Ep) as [hl [Hh Hv]].
     destruct (etm_valid_facts _ _ Hv) as [_ [_ [Ht _]]].
     rewrite (etm_dec_is_canon aes (hmacs h) hl aes_len (hmacs_len h hl Hh)) by lia. intros Hd.
     apply (etm_accept_iff aes (hmacs h) hl aes_len (hmacs_len h hl Hh) [] k c ad p) in Hd; [|lia|exact Hc].
-    destruct Hd as [iv [Hl He]]. exists iv. split; [lia|exact He].
+    exact Hd.
   Qed.
 
-  Theorem etm_dek_dec_no_panic ivsz dek c ad : ddec ivsz dek c ad <> Panic.
+  (* a data key that does not parse decrypts nothing *)
+  Lemma etm_dek_dec_ok_parses dek c ad p : ddec dek c ad = Ok p -> exists h k, etm_dek_parse dek = Some (h, k).
+  Proof. unfold etm_dek_dec. destruct (etm_dek_parse dek) as [[h k]|]; [|discriminate]. intros _. exists h, k. reflexivity. Qed.
+
+  Theorem etm_dek_dec_no_panic dek c ad : ddec dek c ad <> Panic.
   Proof.
-    unfold etm_dek_dec. destruct (etm_dek_parse ivsz dek) as [[h k]|] eqn:Ep; [|discriminate].
-    destruct (etm_dek_parse_inv _ _ _ _ Ep) as [hl [Hh [Hv _]]].
+    unfold etm_dek_dec. destruct (etm_dek_parse dek) as [[h k]|] eqn:Ep; [|discriminate].
+    destruct (etm_dek_parse_inv _ _ _ Ep) as [hl [Hh Hv]].
     destruct (etm_valid_facts _ _ Hv) as [_ [_ [Ht _]]].
     apply (etm_dec_no_panic aes (hmacs h) hl aes_len (hmacs_len h hl Hh)). lia.
   Qed.
 
   (* the data-key ciphertext is IV || CTR body || tag: |p| + IV size + tag size bytes, as short as 22 *)
-  Lemma etm_dek_payload_length h hl k iv p ad c : hash_len h = Some hl -> etm_valid hl k = true ->
-    (length (ek_hmac k) <= 100)%nat -> length iv = ek_iv k ->
-    denc (ek_iv k) (etm_dek_proto h k) iv p ad = Ok c -> length c = (ek_iv k + length p + ek_tag k)%nat.
+  Lemma etm_dek_payload_length dek h k iv p ad c : etm_dek_parse dek = Some (h, k) ->
+    denc dek iv p ad = Ok c -> length c = (length iv + length p + ek_tag k)%nat.
   Proof.
-    intros Hh Hv Hm Hiv. unfold etm_dek_enc. rewrite (etm_dek_parse_proto h hl k Hh Hv Hm).
+    intros Ep. unfold etm_dek_enc. rewrite Ep.
+    destruct (etm_dek_parse_inv _ _ _ Ep) as [hl [Hh Hv]].
     destruct (etm_valid_facts _ _ Hv) as [_ [_ [Ht _]]]. intros He.
     apply (etm_enc_inv aes (hmacs h) hl aes_len (hmacs_len h hl Hh)) in He; [|lia]. destruct He as [_ ->].
     cbn [app]. rewrite !app_length, aes_ctr_length by apply aes_len.
@@ -170,43 +126,56 @@ Section EtmDek.
     Variable kek_dec : bytes -> bytes -> outcome bytes.
     Variable kivlen : nat.
 
-    Theorem env_round_trip_etm ivsz dek kekiv dekiv p ad c :
-      kek_rt kek_enc kek_dec kivlen ->
-      length kekiv = kivlen -> length dekiv = ivsz ->
-      env_enc kek_enc (denc ivsz) dek kekiv dekiv p ad = Ok c ->
-      env_dec kek_dec (ddec ivsz) c ad = Ok p.
+    (* for ANY serialised data key the key-encryption AEAD hands back, in any protobuf encoding: if it
+       parses to the key (h, k) and Encrypt drew an IV of that key's size, Decrypt returns the plaintext *)
+    Theorem env_round_trip_etm dek h k kekiv dekiv p ad c :
+      kek_rt kek_enc kek_dec kivlen -> etm_dek_parse dek = Some (h, k) ->
+      length kekiv = kivlen -> length dekiv = ek_iv k ->
+      env_enc kek_enc denc dek kekiv dekiv p ad = Ok c ->
+      env_dec kek_dec ddec c ad = Ok p.
     Proof.
-      intros HK H1 H2 He.
-      exact (env_round_trip kek_enc kek_dec (denc ivsz) (ddec ivsz) kivlen ivsz
-               dek kekiv dekiv p ad c HK (etm_dek_rt ivsz) H1 H2 He).
+      intros HK Ep Hk Hd. unfold env_enc, env_dec.
+      destruct (kek_enc kekiv dek []) as [e| |] eqn:Ee; try discriminate. cbn [bind].
+      destruct (Nat.eqb (length e) 0); [discriminate|].
+      destruct (denc dek dekiv p ad) as [pl| |] eqn:Epl; try discriminate. cbn [bind].
+      intros Hb. rewrite (parse_build _ _ _ Hb). cbn [bind fst snd].
+      rewrite (HK _ _ _ _ Hk Ee). cbn [bind]. exact (etm_dek_rt dek h k dekiv p ad pl Ep Hd Epl).
     Qed.
 
-    (* for the freshly generated key of any valid template: the envelope built around it decrypts *)
+    (* for the freshly generated key of any valid template: the envelope built around it decrypts, and
+       it is be32(|encDEK|) || encDEK || payload with 1 <= |encDEK| <= 4096 and a payload of exactly
+       IV size + |p| + tag size bytes *)
     Corollary env_round_trip_etm_fresh h hl k kekiv dekiv p ad c :
-      hash_len h = Some hl -> etm_valid hl k = true -> (length (ek_hmac k) <= 100)%nat ->
+      hash_len h = Some hl -> etm_valid hl k = true -> lenN (etm_dek_proto h k) < two64 ->
       kek_rt kek_enc kek_dec kivlen -> length kekiv = kivlen -> length dekiv = ek_iv k ->
-      env_enc kek_enc (denc (ek_iv k)) (etm_dek_proto h k) kekiv dekiv p ad = Ok c ->
-      env_dec kek_dec (ddec (ek_iv k)) c ad = Ok p /\
+      env_enc kek_enc denc (etm_dek_proto h k) kekiv dekiv p ad = Ok c ->
+      env_dec kek_dec ddec c ad = Ok p /\
       exists encDEK payload, kek_enc kekiv (etm_dek_proto h k) [] = Ok encDEK /\
+        1 <= lenN encDEK <= 4096 /\
         c = be_bytes 4 (lenN encDEK) ++ encDEK ++ payload /\
         length payload = (ek_iv k + length p + ek_tag k)%nat.
     Proof.
-      intros Hh Hv Hm HK H1 H2 He. split; [exact (env_round_trip_etm _ _ _ _ _ _ _ HK H1 H2 He)|].
+      intros Hh Hv Hl HK H1 H2 He.
+      pose proof (etm_dek_parse_proto h hl k Hh Hv Hl) as Ep.
+      split; [exact (env_round_trip_etm _ h k _ _ _ _ _ HK Ep H1 H2 He)|].
       revert He. unfold env_enc.
       destruct (kek_enc kekiv (etm_dek_proto h k) []) as [e| |] eqn:Ee; cbn [bind]; try discriminate.
-      destruct (Nat.eqb (length e) 0); [discriminate|].
-      destruct (denc (ek_iv k) (etm_dek_proto h k) dekiv p ad) as [pl| |] eqn:Ep; cbn [bind]; try discriminate.
-      unfold build_envelope. destruct (Nat.eqb (length e) 0); [discriminate|].
-      destruct (maxLengthEncryptedDEK <? lenN e); [discriminate|].
+      destruct (Nat.eqb_spec (length e) 0) as [|H0]; [discriminate|].
+      destruct (denc (etm_dek_proto h k) dekiv p ad) as [pl| |] eqn:Epl; cbn [bind]; try discriminate.
+      unfold build_envelope. destruct (Nat.eqb_spec (length e) 0); [discriminate|].
+      destruct (N.ltb_spec maxLengthEncryptedDEK (lenN e)) as [|Hm]; [discriminate|].
       intros Hc; inversion Hc. exists e, pl. repeat split.
-      exact (etm_dek_payload_length h hl k dekiv p ad pl Hh Hv Hm H2 Ep).
+      - unfold lenN. lia.
+      - unfold maxLengthEncryptedDEK in Hm. exact Hm.
+      - rewrite (etm_dek_payload_length _ h k dekiv p ad pl Ep Epl). lia.
     Qed.
 
-    Theorem env_accept_iff_etm ivsz c ad p :
+    Theorem env_accept_iff_etm c ad p :
       kek_rt kek_enc kek_dec kivlen -> kek_only kek_enc kek_dec kivlen -> wfb c -> lenN c <= MaxInt ->
-      (env_dec kek_dec (ddec ivsz) c ad = Ok p <->
-       exists dek kekiv dekiv, length kekiv = kivlen /\ length dekiv = ivsz /\
-         env_enc kek_enc (denc ivsz) dek kekiv dekiv p ad = Ok c).
+      (env_dec kek_dec ddec c ad = Ok p <->
+       exists dek h k kekiv dekiv, etm_dek_parse dek = Some (h, k) /\
+         length kekiv = kivlen /\ length dekiv = ek_iv k /\
+         env_enc kek_enc denc dek kekiv dekiv p ad = Ok c).
     Proof.
       intros HK HKO Hw Hc. split.
       - unfold env_dec. destruct (parse_envelope c) as [[e pl]| |] eqn:Ep; try discriminate. cbn [bind fst snd].
@@ -217,23 +186,44 @@ Section EtmDek.
         { revert Hb. unfold build_envelope. destruct (Nat.eqb (length e) 0); [discriminate|].
           destruct (maxLengthEncryptedDEK <? lenN e); [discriminate|]. intros Hq; inversion Hq as [Hq'].
           rewrite <- Hq' in Hc. unfold lenN in *. cbn [length] in Hc. rewrite !app_length in Hc. lia. }
-        destruct (etm_dek_only ivsz dek pl ad p Hpl Hd) as [dekiv [Hdl Hde]].
-        exists dek, kekiv, dekiv. repeat split; auto.
+        destruct (etm_dek_dec_ok_parses _ _ _ _ Hd) as [h [k Epk]].
+        destruct (etm_dek_only dek h k pl ad p Epk Hpl Hd) as [dekiv [Hdl Hde]].
+        exists dek, h, k, kekiv, dekiv. repeat split; auto.
         unfold env_enc. rewrite Hke. cbn [bind].
         destruct (Nat.eqb_spec (length e) 0) as [H0|H0].
         + unfold build_envelope in Hb. rewrite H0 in Hb. discriminate.
         + rewrite Hde. cbn [bind]. exact Hb.
-      - intros [dek [kekiv [dekiv [Hk [Hd H]]]]]. eapply env_round_trip_etm; eauto.
+      - intros [dek [h [k [kekiv [dekiv [Epk [Hk [Hd H]]]]]]]]. eapply env_round_trip_etm; eauto.
     Qed.
 
-    Theorem env_dec_no_panic_etm ivsz c ad :
-      (forall c ad, kek_dec c ad <> Panic) -> env_dec kek_dec (ddec ivsz) c ad <> Panic.
+    Theorem env_dec_no_panic_etm c ad :
+      (forall c ad, kek_dec c ad <> Panic) -> env_dec kek_dec ddec c ad <> Panic.
     Proof. intros HK. apply env_dec_no_panic; [exact HK|]. intros dek c0 ad0. apply etm_dek_dec_no_panic. Qed.
   End WithKek.
 End EtmDek.
 
-(* non-vacuity: a valid template with IV 12 and tag 10 (data-key ciphertexts of 22 + |p| bytes) *)
+(* ---- non-vacuity ---- *)
+(* a valid template with IV 12 and tag 10 (data-key ciphertexts of 22 + |p| bytes) *)
 Example etm_small_key : etm_key := mkEtm (repeat 1 16) (repeat 2 16) 12 10.
 Example etm_small_valid : hash_len 3 = Some 32%nat /\ etm_valid 32 etm_small_key = true /\
-  etm_dek_parse 12 (etm_dek_proto 3 etm_small_key) = Some (3, etm_small_key).
+  etm_dek_parse (etm_dek_proto 3 etm_small_key) = Some (3, etm_small_key) /\
+  (* the serialisation is the 50 bytes Go's proto.Marshal produces *)
+  etm_dek_proto 3 etm_small_key =
+    [18; 22; 18; 2; 8; 12; 26; 16] ++ repeat 1 16 ++ [26; 24; 18; 4; 8; 3; 16; 10; 26; 16] ++ repeat 2 16.
+Proof. repeat split; vm_compute; reflexivity. Qed.
+
+(* other protobuf encodings of the same key parse to the same key: explicit version 0 in front, an
+   unknown field behind, the two key messages in the other order (what Tink accepts, fourth audit A1) *)
+Example etm_noncanonical_deks_parse :
+  let ctr := [18; 22; 18; 2; 8; 12; 26; 16] ++ repeat 1 16 in
+  let hm := [26; 24; 18; 4; 8; 3; 16; 10; 26; 16] ++ repeat 2 16 in
+  etm_dek_parse ([8; 0] ++ ctr ++ hm) = Some (3, etm_small_key) /\
+  etm_dek_parse (ctr ++ hm ++ [40; 1]) = Some (3, etm_small_key) /\
+  etm_dek_parse (hm ++ ctr) = Some (3, etm_small_key) /\
+  (* a key with another IV size than any template at hand is a key all the same *)
+  etm_dek_parse (etm_dek_proto 3 (mkEtm (repeat 1 16) (repeat 2 16) 16 10)) = Some (3, mkEtm (repeat 1 16) (repeat 2 16) 16 10) /\
+  (* version 1, a 24-byte AES key, a missing HMAC key message: refused *)
+  etm_dek_parse ([8; 1] ++ ctr ++ hm) = None /\
+  etm_dek_parse (etm_dek_proto 3 (mkEtm (repeat 1 24) (repeat 2 16) 12 10)) = None /\
+  etm_dek_parse ctr = None.
 Proof. repeat split; vm_compute; reflexivity. Qed.
